@@ -311,6 +311,8 @@ func registerFrames() {
 	// every tree, programs built with gc for a sample)
 	Register("C12-sweep", func(c *Ctx) {
 		knownFindingReproducers(c)
+		// Stop and Fatal with a context that is cancelled or expired
+		ctxStopScenarios(c, "")
 		var trees [][]*Ins
 		treesFor(c, func(t []*Ins) {
 			trees = append(trees, t)
